@@ -27,6 +27,8 @@ RULE = (
     'the arithmetic time with the coroutine\'s value. non-trivial = >= 2 processes interacted; '
     'distinct = per-process log digest'
 )
+RULE = RULE + (' Further: failures that are no Exception or are Concurrent objects, member lists re-used by the program, native tasks that are cancelled while a process waits for them, native simulation younger than the environment.')
+
 LEVEL_TEXT = (
     'Exploration by differential runtime monitoring: identical generated SimPy programs are '
     'executed on the real compatibility layer and on a 250-line reference kernel; every resume '
